@@ -293,26 +293,37 @@ def check_confinement(chk, tu, all_funcs):
     chk.ok('R09.2', 'writes-scanned', '%d stores in %d functions reachable from %s; none targets static storage' % (n_writes, len(reach), WORKER))
     # the debug-line cursor
     prod = astdb.fn_body(tu.functions[PRODUCER])
-    stores = []
-    for n in walk(prod):
-        if n.get('kind') == 'IfStmt':
-            then = n['inner'][1]
-            for a in walk(then):
-                if a.get('kind') == 'BinaryOperator' and a.get('opcode') == '=' and strip(kids(a)[0]).get('kind') == 'MemberExpr' \
-                        and strip(kids(a)[0]).get('name') == 'debugLines' and astdb.const_int(strip(kids(a)[1], casts=True), tu) != 0:
-                    stores.append((a, n['inner'][0]))
+
+    def nonnull_guards(store):
+        """conditions under which `store` puts a non-NULL cursor into the task: enclosing if-conditions and, for a conditional
+        expression on the right-hand side, the condition selecting the non-NULL arm"""
+        guards = []
+        for n in walk(prod):
+            if n.get('kind') == 'IfStmt' and any(x is store for x in walk(n['inner'][1])):
+                guards.append(_cond_closure(n['inner'][0], prod))
+            if n.get('kind') == 'IfStmt' and len(n['inner']) > 2 and any(x is store for x in walk(n['inner'][2])):
+                guards.append('!(' + _cond_closure(n['inner'][0], prod) + ')')
+        rhs = strip(kids(store)[1], casts=True)
+        if rhs.get('kind') == 'ConditionalOperator':
+            c, a, b = kids(rhs)
+            a_null = astdb.const_int(strip(a, casts=True), tu) == 0
+            b_null = astdb.const_int(strip(b, casts=True), tu) == 0
+            if b_null and not a_null:
+                guards.append(_cond_closure(c, prod))
+            elif a_null and not b_null:
+                guards.append('!(' + _cond_closure(c, prod) + ')')
+            elif a_null and b_null:
+                guards.append('0 == 1')
+        return guards
     all_stores = [a for a in walk(prod) if a.get('kind') == 'BinaryOperator' and a.get('opcode') == '=' and strip(kids(a)[0]).get('kind') == 'MemberExpr'
                   and strip(kids(a)[0]).get('name') == 'debugLines' and astdb.const_int(strip(kids(a)[1], casts=True), tu) != 0]
     chk.require(all_stores, 'no store of a debug-line cursor into the task record found')
     for a in all_stores:
-        guard = [c for s, c in stores if s is a]
-        ok = False
-        if guard:
-            gtxt = _cond_closure(guard[0], prod)
-            ok = re.search(r'threadCount\s*==\s*1\b', gtxt) is not None and '||' not in gtxt
+        guards = nonnull_guards(a)
+        ok = any(re.search(r'threadCount\s*==\s*1\b', g) is not None and '||' not in g and not g.startswith('!') for g in guards)
         chk.expect(ok, 'R09.2', 'debug-cursor-single-thread',
                    'the stateful debug-line cursor is handed to the workers at %s under condition %r, which does not imply threadCount == 1: '
-                   'several workers would advance one cursor concurrently' % (astdb.loc_str(a), _cond_closure(guard[0], prod) if guard else 'none'),
+                   'several workers would advance one cursor concurrently' % (astdb.loc_str(a), guards or 'none'),
                    PRODUCER + ':debug-cursor', astdb.loc_str(a))
 
 
